@@ -16,7 +16,7 @@ sys.path.insert(0, os.path.dirname(os.path.abspath(__file__)))
 import vlib
 from vlib import log
 
-IMPLEMENTED = {"dispatcher", "buffer", "sync"}
+IMPLEMENTED = {"dispatcher", "buffer", "sync", "blsdkg", "psdkg", "blsverify", "psverify", "pssign", "psprover"}
 
 
 def tlc_inputs(wd, trace=""):
@@ -37,7 +37,7 @@ def run(pid):
     drv = vlib.build_harness()
     jobfile = os.path.join(wd, "c10job.json")
     with open(jobfile, "w") as f:
-        json.dump(dict(cells=todo, seed=vlib.seed(), flips=12 if tr == "quick" else 400, workers=12), f)
+        json.dump(dict(cells=todo, seed=vlib.seed(), flips=8 if tr == "quick" else 300, workers=14), f)
     outfile = os.path.join(wd, "c10.ndjson")
     rc, _, err = vlib.run_driver(drv, ["c10"], stdin_path=jobfile, stdout_path=outfile, timeout=3000)
     if rc != 0:
